@@ -60,6 +60,24 @@ family face order) must neither show the same clause failing on the same minimal
 mesh for another singularity set of that size (ring / face order breaks ties between equally short paths, so WHICH sets run into a known
 defect of the plain code may change); otherwise it is counted (deviation_failure_also_on_plain_configuration) and left to the main tasks.
 
+Deviations II (round 5; tasks with "shift" / "dup" / "pre"; input_class suffix ":origin=2^k" / ":duplicate_attribute_flag" / ":mesh_history=<queries>><edit>").
+  * geometry far from the origin: every coordinate is rounded to a multiple of 2^-12 and the surface translated by (2^k, -2^k, 2^(k-1)), k in 20 / 30 / 40
+    (exact: <= 53 bits), so the ratio |position| / edge length is 2^k while every edge vector stays bit for bit the one at the origin.  All clauses of
+    the statement as before, positions exactly.  (No "same cut as at the origin" clause: the face barycentres the dual search compares are rounded at
+    another magnitude, so ties may fall otherwise - the statement fixes no tie rule.)  Reported with the suffix only if the surface at the origin does
+    not show the same (same rule as above).
+  * configuration: mouette.config.display_duplicate_attribute_warning = True (create_attribute hands back the attribute that already carries the name
+    instead of a fresh one) for everything that runs a SECOND time on one mesh object: the second-cutter tasks (first cutter {vertex 0} / all vertices,
+    then the judged one) and the call histories of one cutter (events run() again, second cutter sharing the arguments, ...).  Same clauses; the switch
+    is restored by try/finally in run_task.
+  * history of the mesh OBJECT before the cut (mc/c16_pre.py): the mesh is built, receives one family of public queries that leave caches on it
+    (none | border lists | connectivity arrays | persistent attributes | a feature detector run | an earlier cut | all of them), is then edited by one
+    documented step of mouette.mesh.subdivision on the same object (in place: fan split of a face, split_double_boundary_edges_triangles, triangulate()
+    - an empty block on triangles, a real one on quad / mixed meshes; containers replaced: loop_subdivision, subdivide_triangles_6), and is then cut.
+    The oracle's input is the pair of element containers the object holds when it is cut (they must be the ones the same edit leaves on a mesh without
+    a past: premise, counted).  A failure that a fresh mesh built from those containers shows as well is reported under its plain class (no main task
+    cuts these surfaces); otherwise the suffix names the edit kind and the smallest family of earlier queries with which it still fails.
+
 Documented defaults / call forms (tasks with "defaults").  All the tasks above pass every option explicitly by keyword.  The documented signatures of the
 entry points the property is exercised through are pinned in DOC_SIGNATURES (copied from the unchanged tree, never read from the library at run time):
   * defaults.signature: inspect.signature() of each entry point (and of the three path functions the cutter itself calls positionally / with an omitted
@@ -78,6 +96,7 @@ from __future__ import annotations
 import itertools
 from mc.core import Report, call, exc_kind
 from mc import families as F
+from mc import c16_pre as P
 
 ID = "C16"
 TECHNIQUE = ("bounded-exhaustive enumeration of (connected surface, coordinates, singularity set, feature mode) "
@@ -91,7 +110,10 @@ RULE = ("one case = (family member, coordinate alphabet [ties|generic], feature 
         "than one border loop, or a singular vertex off the border). History cases: one case = (configuration, state of one cutter "
         "object reached by a history of public calls after run(), next call); states are distinct by the canonical key of all fields of "
         "the cutter and of the caller's objects. Deviation cases: one case = (case of a fixed subset of the above, deviation) with deviation in {coordinates x 2^-200, "
-        "coordinates x 2^200, config.sort_neighborhoods=False, face k listed first for every k, the last two combined}. Call-form cases: one case = "
+        "coordinates x 2^200, config.sort_neighborhoods=False, face k listed first for every k, the last two combined, surface translated by (2^k, -2^k, 2^(k-1)) "
+        "for k in {20, 30, 40}, config.display_duplicate_attribute_warning=True on every second run on one mesh object}. Mesh-history cases: one case = (base mesh, "
+        "family of cache-filling public queries out of 7, one documented editing step of mouette.mesh.subdivision on the same object, singularity set) - the surface "
+        "that is cut is the one the edit leaves, the mesh object is the one that went through the queries. Call-form cases: one case = "
         "(configuration of a fixed subset, call form of SingularityCutter / FaceSpanningTree / FaceSpanningForest / traverse out of the pinned list) compared with "
         "the fully explicit keyword form of the same documented meaning")
 ASSUMPTIONS = [
@@ -114,7 +136,17 @@ ASSUMPTIONS = [
     "roots of the cutter up to that power, hence the unit.same_cut clause demands identical edge ids; it is skipped (counted) when the feature "
     "detector, which is C15's subject, returns another feature set on the scaled mesh; other exponents are not enumerated",
     "deviation tasks run a fixed subset of the families (see BOUNDS); deviations are not combined with each other except face order x sort_neighborhoods; "
-    "mouette.config switches other than sort_neighborhoods are left at their defaults",
+    "mouette.config switches other than sort_neighborhoods and display_duplicate_attribute_warning are left at their defaults",
+    "far from the origin: coordinates are rounded to multiples of 2^-12 first and |coordinate| < 2^(k-2), so the translation by 2^k (k <= 40) is exact (asserted per "
+    "point); larger ratios (k > 40) lose coordinate bits, i.e. are other surfaces - not enumerated; the translated runs are judged by the clauses of the statement only",
+    "config.display_duplicate_attribute_warning is switched on only in the second-run tasks and call histories listed in BOUNDS (a first run on a fresh mesh meets no "
+    "existing attribute, so the switch cannot matter there); complete_edges_from_faces / complete_faces_from_cells / export_edges_in_obj are left at their defaults "
+    "(with incomplete edge lists the premise 'mesh.edges = sides of the faces' is gone; the last one only concerns file export)",
+    "mesh histories: the editing steps and the earlier queries are premises (C13 / C01 / C07 / C15 are about them): a history that raises, or an edit whose result "
+    "differs from the one on a mesh without a past, is counted (pre:*) and not judged, and finish() demands that neither happened; only surfaces whose faces are all "
+    "triangles after the edit are cut (the statement is about triangulated surfaces: quad / mixed bases get triangulate / loop / 1-to-6 only, and the 'earlier cut' "
+    "query family is skipped on them); hand-made edits of the containers (without the subdivision block) are not enumerated: the corner container they would have to keep "
+    "consistent is not documented; the persistent attributes of the 'attributes' family are stale after the edit by design (DESIGN 8.4) - the cutter asks for non-persistent ones",
     "documented defaults (tables DOC_SIGNATURES / DOC_SIGNATURES_RELIED_ON, copied from the signatures and docstrings of the unchanged tree: features=None, "
     "verbose=False; starting_face=None, forbidden_edges=None; order='BFS'; weights='length', export_path_mesh=False) are the reference: a signature that differs "
     "from the table is reported as a violation of C16.defaults.signature; the behavioural sweep of the call forms compares with the explicit keyword form run on "
@@ -137,17 +169,28 @@ BOUNDS = {
              "the same classes, grid 3x3 flat / fold / bump, octahedron, torus 3x3, 7-vertex torus on the lattice alphabet (6-8 chosen sets; sets <=2 on <=5 vertices). "
              "Documented defaults / call forms: signature guard on 8 entry points; 9 call forms of SingularityCutter + 16 of FaceSpanningTree / FaceSpanningForest + 4 of traverse on the "
              "triangle + 8 SURF(4..5) classes + 9 SURF(6) classes + octahedron + torus 3x3 x {no detector, full detector}, grid 3x3 flat x {none, border-only}, pair of pants, "
-             "grid 3x3 fold / bump, grid 4x4 plateau x full detector, lattice alphabet (sets <=2 on <=6 vertices, else <=1 + chosen pairs + all; tree forms on sets <=1 and all)",
+             "grid 3x3 fold / bump, grid 4x4 plateau x full detector, lattice alphabet (sets <=2 on <=6 vertices, else <=1 + chosen pairs + all; tree forms on sets <=1 and all). "
+             "Far from the origin (translation by 2^30 / 2^40, the two exponents in rotation over the configurations): triangle + 8 SURF(4..5) classes + 27 SURF(6) classes (sets <=2), grids 3x3 4x4 "
+             "flat / fold / bump / plateau, 8 holey 3x3 grids, pair of pants with a fold, octahedron, icosahedron, 7-vertex torus, torus 3x3, torus 3x3 minus 1 face (sets <=1 + chosen pairs + all) "
+             "x {no detector, full detector} x both alphabets. display_duplicate_attribute_warning=True: all second-cutter tasks (8 SURF(4..5) classes, grids 3x3 4x4 flat / fold / bump / plateau, "
+             "octahedron, torus 3x3) + 9 call-history tasks (classes, grid 3x3 flat / fold, octahedron, torus 3x3). Mesh histories: 7 query families x edits {fan split of the first / middle / last "
+             "face, ear fix (grids), triangulate, loop} on grid 3x3 flat (no detector) / fold (full detector), one SURF(5) class, octahedron (full detector), torus 3x3, and x {triangulate, loop} "
+             "on the quad grid 3x3, the mixed grid 3x4 and the folded quad grid 4x4 (full detector); lattice alphabet, 5-8 chosen sets",
     "thorough": "singularity sets: every subset of <=3 vertices + all vertices (<=2 on the 4x4 grids with 2 faces removed, the pairs of pants and the tori with faces removed). "
                 "As quick, plus: the 15 transposition relabelings of every SURF(6) class; grids 3x3 3x4 3x5 4x4 4x5 5x5 x {tri, tri2}; 4x4 grid with <=2 faces removed; "
                 "4 pairs of pants; torus 3x3 minus <=2 faces, torus 3x4 minus 1 face. Call histories: <= 4 state-changing calls deep; SURF(<=5) classes on both alphabets, "
                 "SURF(6) classes with sets <=2, grids 3x3 3x4 4x4 5x5 with sets <=1, all 71 holey 3x3 grids, closed specimens with sets <=1, 3 tori minus 1 face. "
                 "Deviations as quick plus grids 3x4 5x5, 'tri2' grids, 24 holey 3x3 grids on both alphabets, 3 tori minus 1 face, histories of the SURF(6) classes and of the 7-vertex torus; "
                 "face order on both alphabets with sets <=2 on the SURF(6) classes, plus grid 4x4 plateau and the holey grids with a fold; "
-                "call forms on both alphabets and on all 27 SURF(6) classes",
+                "call forms on both alphabets and on all 27 SURF(6) classes; far from the origin: every configuration of the quick list (plus grids 3x4, 5x5) under each of 2^20, 2^30, 2^40; "
+                "duplicate-attribute switch: plus the histories of the SURF(6) classes, grid 4x4 plateau, 7-vertex torus; mesh histories: fan split of EVERY face, also 1-to-6 subdivision, both "
+                "alphabets, plus grid 4x4 'tri2' (border-only detector), grid 4x4 plateau, grid 3x3 bump, a holey 3x3 grid, 7-vertex torus, a second SURF(5) class with detector, mixed folded grid 4x4, "
+                "quad plateau grid 4x4, the quad cube with and without detector",
 }
 PINNED = {"surf3": 2, "surf4": 22, "surf5": 410, "surf6c": 28}
 UNIT_EXPONENTS = (-200, 200)        # unit-of-length deviation: every coordinate x 2^e (measured range of the unchanged tree: see BOUNDS)
+SHIFT_EXPONENTS = (20, 30, 40)      # far-from-origin deviation: coordinates (multiples of 2^-12) translated by (2^k, -2^k, 2^(k-1)); exact for k <= 40
+SHIFT_EXPONENTS_QUICK = (30, 40)    # ratio distance-from-origin / edge length 2^30 (millimetres in map coordinates) and 2^40
 
 SMALL_BATCH = 12
 
@@ -442,6 +485,79 @@ def tasks(tier):
         if thorough:
             add([["grid", 4, 4, "tri", "plateau"]], feats=("detect",), smax_="few", **dev)
             add([["holey", 3, 3, "tri", "fold", m] for m in dmasks], feats=("detect",), smax_="few", **dev)
+    # ---- round 5 (a): geometry far from the origin.  Coordinates rounded to multiples of 2^-12 and translated by (2^k, -2^k, 2^(k-1)) exactly;
+    #      quick: the exponents rotate over the list of configurations (every configuration gets one, every exponent meets every kind of
+    #      specimen), thorough: every configuration under every exponent
+    sel = []
+    for i in range(0, len(hm), 5):
+        sel.append((hm[i:i + 5], GEOMS, nd))
+    for i in range(0, len(sixc), 7):
+        sel.append((sixc[i:i + 7], GEOMS, nd))
+    for (k, l) in dgrids:
+        sel.append(([["grid", k, l, "tri", "flat"]], GEOMS, ("none",)))
+        for z in ("fold", "bump") + (("plateau",) if min(k, l) >= 4 else ()):
+            sel.append(([["grid", k, l, "tri", z]], GEOMS, ("detect",)))
+    sel.append(([["holey", 3, 3, "tri", "flat", m] for m in dmasks], ("generic",), ("none",)))
+    sel.append(([["holey", 3, 3, "tri", "fold", m] for m in dmasks], ("generic",), ("detect",)))
+    sel.append(([["holey", 5, 5, "tri", "fold", pants[0]]], ("generic",), ("detect",)))
+    for name in ("octahedron", "icosahedron", "csaszar_torus"):
+        sel.append(([["named", name]], GEOMS, nd))
+    sel.append(([["torus", 3, 3, 0]], GEOMS, nd))
+    sel.append(([["torus", 3, 3, m] for m in _torus_masks(3, 3, 1)[:1]], GEOMS, nd))
+    turn = 0
+    for specs, geoms_, feats_ in sel:
+        for geom in geoms_:
+            for feat in feats_:
+                for e in (SHIFT_EXPONENTS if thorough else (SHIFT_EXPONENTS_QUICK[turn % len(SHIFT_EXPONENTS_QUICK)],)):
+                    add(specs, geoms=(geom,), feats=(feat,), smax_="dev", shift=e)
+                turn += 1
+    # ---- round 5 (b): configuration switch display_duplicate_attribute_warning (create_attribute hands back the attribute that already has
+    #      the name) x everything that runs a second time on one mesh object: the second-cutter tasks and call histories of one cutter
+    for i in range(0, len(rr), SMALL_BATCH):
+        add(rr[i:i + SMALL_BATCH], feats=("none", "detect"), smax_=1, rerun=True, dup=True)
+    for (k, l) in ((3, 3), (4, 4)):
+        add([["grid", k, l, "tri", "flat"]], feats=("none",), smax_=1, rerun=True, dup=True)
+        for z in ("fold", "bump") + (("plateau",) if k >= 4 else ()):
+            add([["grid", k, l, "tri", z]], feats=("detect",), smax_=1, rerun=True, dup=True)
+    add([["named", "octahedron"]], feats=("none", "detect"), smax_=1, rerun=True, dup=True)
+    add([["torus", 3, 3, 0]], feats=("none", "detect"), smax_=1, rerun=True, dup=True)
+    hist(hm[:3], nd, "few", dup=True)
+    hist(hm[3:6], nd, "few", dup=True)
+    hist([["grid", 3, 3, "tri", "flat"]], ("none",), "few", dup=True)
+    hist([["grid", 3, 3, "tri", "fold"]], ("detect",), "few", dup=True)
+    hist([["named", "octahedron"]], nd, "few", dup=True)
+    hist([["torus", 3, 3, 0]], ("none",), "few", ("generic",), dup=True)
+    if thorough:
+        for i in range(0, len(sixc), 5):
+            hist(sixc[i:i + 5], nd, "few", dup=True)
+        hist([["grid", 4, 4, "tri", "plateau"]], ("detect",), "few", dup=True)
+        hist([["named", "csaszar_torus"]], nd, "few", GEOMS, dup=True)
+    # ---- round 5 (c): history of the mesh OBJECT before the cut: [every family of earlier queries] x one documented editing step
+    #      (mouette.mesh.subdivision) x cut.  Triangle meshes: fan split of a face (quick: first / middle / last face, thorough: every face),
+    #      ear fix, triangulate() (an empty block), loop subdivision; quad / mixed meshes: triangulate(), loop (thorough also 1-to-6)
+    def prehist(spec, feat, edit, geoms=("ties",)):
+        add([spec], geoms=geoms, feats=(feat,), smax_="few", pre=[list(P.FILLERS), edit])
+    pg = GEOMS if thorough else ("ties",)
+    tri_bases = [(["grid", 3, 3, "tri", "flat"], "none"), (["grid", 3, 3, "tri", "fold"], "detect"), (hm[-1], "none"), (["named", "octahedron"], "detect"),
+                 (["torus", 3, 3, 0], "none")]
+    if thorough:
+        tri_bases += [(["grid", 4, 4, "tri2", "flat"], "border"), (["grid", 4, 4, "tri", "plateau"], "detect"), (["grid", 3, 3, "tri", "bump"], "detect"),
+                      (["holey", 3, 3, "tri", "flat", masks33[len(masks33) // 2]], "none"), (["named", "csaszar_torus"], "detect"), (hm[4], "detect")]
+    for spec, feat in tri_bases:
+        nf = len(_resolve(spec, "ties")[2])
+        for f in (range(nf) if thorough else sorted({0, nf // 2, nf - 1})):
+            prehist(spec, feat, ["fan", f], pg)
+        for kind in ("ears", "triangulate", "loop") + (("tri6",) if thorough else ()):
+            if kind == "ears" and spec[0] != "grid":
+                continue                                  # no face with two border sides: the step has nothing to do (= no past at all)
+            prehist(spec, feat, [kind], pg)
+    poly_bases = [(["grid", 3, 3, "quad", "flat"], "none"), (["grid", 3, 4, "mixed", "flat"], "none"), (["grid", 4, 4, "quad", "fold"], "detect")]
+    if thorough:
+        poly_bases += [(["grid", 4, 4, "mixed", "fold"], "detect"), (["grid", 4, 4, "quad", "plateau"], "detect"), (["named", "cube_quads"], "none"),
+                       (["named", "cube_quads"], "detect")]
+    for spec, feat in poly_bases:
+        for kind in ("triangulate", "loop") + (("tri6",) if thorough else ()):
+            prehist(spec, feat, [kind], pg)
     # ---- documented defaults / call forms (see "Documented defaults" in the module docstring)
     out.append({"defaults": "signature"})
     dgeoms = GEOMS if thorough else ("ties",)
@@ -674,14 +790,17 @@ class _Plain:
 
     def __enter__(self):
         ses = self.ses
-        self.saved = (ses.unit, ses.sort, ses.rot, ses.M.config.sort_neighborhoods)
-        ses.unit, ses.sort, ses.rot = 0, True, 0
-        ses.M.config.sort_neighborhoods = True
+        cfg = ses.M.config
+        self.saved = (ses.unit, ses.sort, ses.rot, ses.shift, ses.dup, ses.pre_live, cfg.sort_neighborhoods, cfg.display_duplicate_attribute_warning)
+        ses.unit, ses.sort, ses.rot, ses.shift, ses.dup, ses.pre_live = 0, True, 0, 0, False, False
+        cfg.sort_neighborhoods = True
+        cfg.display_duplicate_attribute_warning = False
         return ses
 
     def __exit__(self, *a):
         ses = self.ses
-        ses.unit, ses.sort, ses.rot, ses.M.config.sort_neighborhoods = self.saved
+        cfg = ses.M.config
+        ses.unit, ses.sort, ses.rot, ses.shift, ses.dup, ses.pre_live, cfg.sort_neighborhoods, cfg.display_duplicate_attribute_warning = self.saved
         return False
 
 
@@ -730,9 +849,16 @@ def _subsets(n, smax):
 class Session:
     """Runs of one task: resolved inputs, and the minimal failing configurations already derived (for classes)."""
 
-    def __init__(self, M, rep, unit=0, sort=True):
+    def __init__(self, M, rep, unit=0, sort=True, shift=0, dup=False, pre=None):
         self.M, self.rep = M, rep
+        # round-5 deviations (see "Deviations II" in the module docstring): geometry translated far from the origin by 2^shift; the
+        # configuration switch display_duplicate_attribute_warning; history of the mesh object before the cut = [filler, edit]
+        # (pre_live: the history is really executed on the object that is cut; False = the plain twin: a fresh mesh built from the
+        # element containers the edit leaves)
+        self.shift, self.dup = int(shift), bool(dup)
+        self.pre, self.pre_live = (list(pre) if pre else None), bool(pre)
         self.inputs = {}
+        self.base_inputs = {}
         self.minimal = {}
         self.minimal_hist = {}
         self.plain_cls = {}
@@ -741,17 +867,25 @@ class Session:
         self.unit, self.sort, self.rot = int(unit), bool(sort), 0
 
     def deviating(self):
-        return self.unit != 0 or not self.sort or self.rot != 0
+        return self.unit != 0 or not self.sort or self.rot != 0 or self.shift != 0 or self.dup or (self.pre is not None and self.pre_live)
 
     def plain(self):
         """Context: the same session without any deviation (unit scale, sorted rings, faces in the order of the family)."""
         return _Plain(self)
 
     def input(self, spec, geom):
-        key = (repr(spec), geom, self.unit, self.rot)
+        key = (repr(spec), geom, self.unit, self.rot, self.shift)
         if key not in self.inputs:
             name, pts, faces = _resolve(spec, geom)
             faces = [tuple(f) for f in faces]
+            if self.pre is not None:
+                # the surface that is cut is the one a documented editing step leaves (mouette.mesh.subdivision; what the step does is
+                # C13's subject): the element containers are read back from a mesh that has no other past
+                self.base_inputs[key] = (name, pts, faces)
+                m = F.build_surface(pts, faces)
+                P.apply_edit(self.M, m, self.pre[1])
+                pts, faces, _ = P.read_containers(m)
+                name += ":after_" + P.edit_label(self.pre[1]).replace(" ", "_")
             if self.rot:
                 k = self.rot % len(faces)
                 faces = faces[k:] + faces[:k]
@@ -760,7 +894,10 @@ class Session:
                 sc = 2.0 ** self.unit                       # exact: every coordinate is a double far from over / underflow
                 pts = [tuple(float(x) * sc for x in p) for p in pts]
                 name += ":x2^%d" % self.unit
-            ok = _connected_manifold(pts, faces)
+            if self.shift:
+                pts = P.shift_points(pts, self.shift)          # exact translation of the coordinates rounded to multiples of 2^-12
+                name += ":moved_by_2^%d" % self.shift
+            ok = all(len(f) == 3 for f in faces) and _connected_manifold(pts, faces)
             self.inputs[key] = (name, pts, faces, InputTopology(len(pts), faces) if ok else None)
         return self.inputs[key]
 
@@ -771,7 +908,22 @@ class Session:
         name, pts, faces, T = self.input(spec, geom)
         res = {"name": name, "pts": pts, "T": T, "fails": [], "evals": 0, "result": "skipped", "fcls": None, "obs": None,
                "feature_edges": None, "feature_path": False}
-        m = F.build_surface(pts, faces)
+        if self.pre is not None and self.pre_live:
+            # the mesh OBJECT that is cut has a past: public queries that leave caches on it, then a documented editing step
+            _, bpts, bfaces = self.base_inputs[(repr(spec), geom, self.unit, self.rot, self.shift)]
+            m = F.build_surface(bpts, bfaces)
+            o = call(P.apply_filler, M, m, self.pre[0])
+            if o.ok:
+                o = call(P.apply_edit, M, m, self.pre[1])
+            if not o.ok:
+                res["skip"] = "pre:mesh_history_raised:" + o.exc        # queries / editing steps are the subject of C01, C07, C13, C15
+                return res, m, None
+            got = P.read_containers(m)
+            if [tuple(p) for p in got[0]] != [_P(p) for p in pts] or got[1] != [tuple(f) for f in faces]:
+                res["skip"] = "pre:edit_result_depends_on_earlier_queries"      # C13's subject; the oracle's input would not be the one enumerated
+                return res, m, None
+        else:
+            m = F.build_surface(pts, faces)
         if set(tuple(sorted(int(x) for x in e)) for e in m.edges) != T.adjacent or len(m.edges) != len(T.adjacent):
             res["skip"] = "premise_failed"
             return res, m, None
@@ -803,6 +955,7 @@ class Session:
             c0 = M.processing.SingularityCutter(m, list(first), features=fd, verbose=False)
             if call(c0.run).ok:
                 call(lambda: c0.output_mesh)
+            res["attributes_left_by_first_run"] = sum(len(list(getattr(m, c).attributes)) for c in ("vertices", "edges", "faces", "face_corners"))
 
         def raised(callee, o):
             res["result"] = "raised"
@@ -857,7 +1010,7 @@ class Session:
         """Coarse class of a failing input = class of a *minimal failing configuration* derived from it by re-running the
         real code: singular vertices are dropped one at a time while the same clause keeps failing, and the geometry alphabet
         is switched to see whether the failure depends on it. Returns (class, derivation)."""
-        key = (repr(spec), geom, feat, first is not None, fail["sub"], fail["kind"], self.unit, self.sort, self.rot)
+        key = (repr(spec), geom, feat, first is not None, fail["sub"], fail["kind"], self.unit, self.sort, self.rot, self.shift, self.dup, self.pre_live)
         known = self.minimal.setdefault(key, [])
         for smin, cls, why in known:
             if smin <= set(S):
@@ -883,12 +1036,37 @@ class Session:
         if cls is not None and self.deviating():
             # a failure that the plain configuration (unit scale, sorted rings, family face order) shows as well is not about the
             # deviation: the main tasks report it.  Otherwise the class gets the suffix of the task (Report.class_suffix)
+            pre_live = self.pre is not None and self.pre_live
             with self.plain():
-                if same(self.execute(spec, geom, feat, cur, first)) or cls in self.plain_classes(spec, geom, feat, fail, len(cur), first):
-                    cls = None
-            why["deviation"] = {"unit_of_length": "2^%d" % self.unit, "config.sort_neighborhoods": self.sort, "input_face_listed_first": self.rot}
+                shown = same(self.execute(spec, geom, feat, cur, first)) or cls in self.plain_classes(spec, geom, feat, fail, len(cur), first)
+                if not shown and first is not None:
+                    # the class of a defect of the plain code that a fresh mesh shows for another set of that size (a second run only changes WHICH sets)
+                    shown = cls.replace("|second-run-only", "") in self.plain_classes(spec, geom, feat, fail, len(cur), None)
+            if pre_live:
+                # no main task cuts the surfaces the editing steps leave: a failure that a fresh mesh built from the edited containers shows as
+                # well is reported under its plain class; otherwise the class names the minimal history of the mesh object
+                if not shown:
+                    cls += ":mesh_history=%s>%s" % (self.minimal_filler(spec, geom, feat, cur, first, same), self.pre[1][0])
+            elif shown:
+                cls = None
+            why["deviation"] = {"unit_of_length": "2^%d" % self.unit, "config.sort_neighborhoods": self.sort, "input_face_listed_first": self.rot,
+                                "translated_by": "2^%d" % self.shift if self.shift else None, "config.display_duplicate_attribute_warning": self.dup,
+                                "mesh_history [queries, edit]": self.pre if pre_live else None}
         known.append((frozenset(cur), cls, why))
         return cls, why
+
+    def minimal_filler(self, spec, geom, feat, S, first, same):
+        """The smallest family of earlier queries on the mesh object with which the edit + cut still fails the same way."""
+        mine = self.pre[0]
+        try:
+            for filler in ("none",) + (P.FILLERS[1:-1] if mine == "all" else ()):
+                if filler != mine:
+                    self.pre[0] = filler
+                    if same(self.execute(spec, geom, feat, S, first)):
+                        return filler
+        finally:
+            self.pre[0] = mine
+        return mine
 
     def plain_classes(self, spec, geom, feat, fail, size, first):
         """(called inside 'with self.plain()') Classes of the failures of the same clause that the plain configuration shows on this mesh
@@ -940,7 +1118,15 @@ class Session:
                 detail["first_cutter_on_same_mesh"] = list(first)
             if self.deviating():
                 detail["deviation"] = {"unit_of_length (all coordinates multiplied by)": "2^%d" % self.unit,
-                                       "mouette.config.sort_neighborhoods": self.sort, "input_face_listed_first": self.rot}
+                                       "mouette.config.sort_neighborhoods": self.sort, "input_face_listed_first": self.rot,
+                                       "coordinates rounded to multiples of 2^-12, then translated by (2^k, -2^k, 2^(k-1)), k": self.shift or None,
+                                       "mouette.config.display_duplicate_attribute_warning": self.dup}
+                if self.pre is not None and self.pre_live:
+                    bname, bpts, bfaces = self.base_inputs[(repr(spec), geom, self.unit, self.rot, self.shift)]
+                    detail["mesh_history"] = {"1_mesh_built_from": {"name": bname, "points": [list(p) for p in bpts], "faces": [list(f) for f in bfaces]},
+                                              "2_queries_on_the_mesh_object (mc/c16_pre.py apply_filler)": self.pre[0],
+                                              "3_edit_of_the_same_object (mouette.mesh.subdivision)": P.edit_label(self.pre[1]),
+                                              "4_cut": "SingularityCutter on the same object; points / faces above are its containers at that moment"}
             detail["singularities_passed_as"] = res.get("container_form")
             detail.update(fail["extra"])
             rep.violation("C16." + fail["sub"], "SingularityCutter." + fail["callee"], fail["kind"], cls, detail)
@@ -977,6 +1163,24 @@ class Session:
                 rep.flag("dev:face_order")
             if self.rot and nontrivial_cut:
                 rep.flag("dev:face_order:interior_cut:" + ("crease" if res["feature_path"] else "plain"))
+            if self.shift:
+                rep.flag("dev:origin=2^%d" % self.shift)
+                if nontrivial_cut:
+                    rep.flag("dev:origin=2^%d:interior_cut:%s" % (self.shift, "crease" if res["feature_path"] else "plain"))
+            if self.dup:
+                rep.flag("dev:dup")
+                if self.M.config.display_duplicate_attribute_warning is not True:
+                    rep.count("config_switch_not_in_force")
+                if first is not None:
+                    rep.flag("dev:dup:second_run:" + ("crease" if res["feature_path"] else "plain"))
+                    if res.get("attributes_left_by_first_run"):
+                        rep.flag("dev:dup:first_run_left_an_attribute_on_the_mesh")
+            if self.pre is not None and self.pre_live:
+                rep.flag("pre:queries:" + self.pre[0]); rep.flag("pre:edit:" + self.pre[1][0])
+                rep.count("pre:cuts_of_a_mesh_with_a_past")
+                if nontrivial_cut:
+                    rep.flag("pre:interior_cut:" + ("crease" if res["feature_path"] else "plain"))
+                    rep.flag("pre:interior_cut:after:" + self.pre[1][0])
         if res["result"] == "uncut":
             rep.flag("sphere_left_uncut")
         if T.loops == 0 and T.genus == 0 and len(S) >= 2:
@@ -984,7 +1188,8 @@ class Session:
         if any(s in T.border_vertices for s in S) and any(s not in T.border_vertices for s in S):
             rep.flag("singularities_on_and_off_border")
         if T.nontrivial(S):
-            rep.case((res["name"], geom, feat, tuple(S), tuple(first) if first is not None else None))
+            rep.case((res["name"], geom, feat, tuple(S), tuple(first) if first is not None else None) +
+                     ((self.shift, self.dup, self.pre[0] if self.pre else None) if (self.shift or self.dup or self.pre) else ()))
             if len(S) == 2:
                 rep.sample({"mesh": res["name"], "geometry": geom, "detector": feat, "singularities": list(S), "topology": T.topo_class(),
                             "result": res["result"], "cut_edges": sorted(obs["cut_pairs"]) if obs and obs["cut_pairs"] is not None else None})
@@ -1311,9 +1516,9 @@ def _history_sets(T, rule):
     return _subsets(n, int(rule))
 
 
-def run_history_task(task, rep: Report, M, unit, sort):
+def run_history_task(task, rep: Report, M, unit, sort, dup=False):
     geom, feat, depth = task["geom"], task["feat"], task["history"]
-    ses = Session(M, rep, unit, sort)
+    ses = Session(M, rep, unit, sort, 0, dup)
     for spec in task["meshes"]:
         name, pts, faces, T = ses.input(spec, geom)
         if T is None:
@@ -1340,7 +1545,11 @@ def run_history_task(task, rep: Report, M, unit, sort):
             if T.nontrivial(S):
                 rep.case(("history", tw["name"], geom, feat, tuple(S)))
             if ses.deviating():
-                rep.flag("history:dev:" + ("unit=2^%d" % unit if unit else "sort=False"))
+                rep.flag("history:dev:" + ("unit=2^%d" % unit if unit else ("dup" if dup else "sort=False")))
+                if dup:
+                    for ev in stats["events"]:
+                        rep.flag("history:dev:dup:" + ev)
+                    rep.flag("history:dev:dup:" + tw["fcls"])
                 if tw.get("unit_compared") is not None:
                     rep.count("unit:cuts_compared_with_unit_scale")
             for hist, fail, final in found:
@@ -1360,7 +1569,8 @@ def run_history_task(task, rep: Report, M, unit, sort):
                           "topology": T.topo_class(), "history_after_run": list(hist), "minimal_failing_history": list(mini),
                           "failure_seen": "closing re-check of all clauses after the history" if final else "right after the last call of the history"}
                 if ses.deviating():
-                    detail["deviation"] = {"unit_of_length (all coordinates multiplied by)": "2^%d" % unit, "mouette.config.sort_neighborhoods": sort}
+                    detail["deviation"] = {"unit_of_length (all coordinates multiplied by)": "2^%d" % unit, "mouette.config.sort_neighborhoods": sort,
+                                           "mouette.config.display_duplicate_attribute_warning": dup}
                     detail["points"] = [list(p) for p in tw["pts"]]
                 detail.update(fail["extra"])
                 rep.violation("C16." + fail["sub"], fail["callee"], fail["kind"], cls, detail)
@@ -1737,20 +1947,37 @@ def run_task(task, rep: Report):
     built and processed), "rot": true (every input face listed first in turn).  The process-global switch is restored whatever happens."""
     import mouette as M
     unit, sort = int(task.get("unit", 0)), bool(task.get("sort", True))
+    shift, dup = int(task.get("shift", 0)), bool(task.get("dup", False))
     rep.class_suffix += (":unit=2^%d" % unit if unit else "") + ("" if sort else ":sort=False") + (":face_order" if task.get("rot") else "")
-    old = M.config.sort_neighborhoods
+    # round 5: "shift": k (geometry translated by 2^k), "dup": true (config.display_duplicate_attribute_warning = True while the meshes are built
+    # and processed), "pre": [queries, edit] (history of the mesh object before the cut; its suffix is derived per failure: Session.classify)
+    rep.class_suffix += (":origin=2^%d" % shift if shift else "") + (":duplicate_attribute_flag" if dup else "")
+    old = (M.config.sort_neighborhoods, M.config.display_duplicate_attribute_warning)
     M.config.sort_neighborhoods = sort
+    M.config.display_duplicate_attribute_warning = dup
     try:
+        if dup and _switch_hands_back_existing_attribute(M):
+            rep.flag("dev:dup:create_attribute_hands_back_the_existing_attribute")
         if task.get("defaults"):
             run_defaults_task(task, rep, M)
         elif task.get("history"):
-            run_history_task(task, rep, M, unit, sort)
+            run_history_task(task, rep, M, unit, sort, dup)
         else:
-            run_main_task(task, rep, M, unit, sort)
+            run_main_task(task, rep, M, unit, sort, shift, dup, task.get("pre"))
     finally:
-        M.config.sort_neighborhoods = old
-    if M.config.sort_neighborhoods is not True:
+        M.config.sort_neighborhoods, M.config.display_duplicate_attribute_warning = old
+    if M.config.sort_neighborhoods is not True or M.config.display_duplicate_attribute_warning is not False:
         rep.count("config_switch_not_restored")
+
+
+def _switch_hands_back_existing_attribute(M):
+    """Vacuity guard of the ':duplicate_attribute_flag' tasks: under the switch create_attribute returns the attribute that already has the name."""
+    import warnings
+    m = F.build_surface([(0, 0, 0), (1, 0, 0), (0, 1, 0)], [(0, 1, 2)])
+    with warnings.catch_warnings():
+        warnings.simplefilter("ignore")
+        a = m.faces.create_attribute("c16_guard", bool)
+        return m.faces.create_attribute("c16_guard", bool) is a
 
 
 def _deviation_sets(T):
@@ -1764,10 +1991,27 @@ def _deviation_sets(T):
     return out
 
 
-def run_main_task(task, rep: Report, M, unit, sort):
+def run_main_task(task, rep: Report, M, unit, sort, shift=0, dup=False, pre=None):
     geom, feat, smax = task["geom"], task["feat"], task["smax"]
     part, parts = task["part"]
-    ses = Session(M, rep, unit, sort)
+    if pre is not None:
+        # history of the mesh object before the cut: one edit, every family of earlier queries in turn (fresh objects each time)
+        for filler in pre[0]:
+            ses = Session(M, rep, pre=[filler, pre[1]])
+            for spec in task["meshes"]:
+                name, pts, faces, T = ses.input(spec, geom)
+                if T is None:
+                    rep.count("filtered_not_connected_manifold")
+                    continue
+                bfaces = ses.base_inputs[(repr(spec), geom, 0, 0, 0)][2]
+                if filler == pre[0][0]:
+                    rep.count("pre:meshes")
+                    rep.flag("pre:base:" + ("triangles" if all(len(f) == 3 for f in bfaces) else "has_larger_faces"))
+                    rep.flag("pre:%s:%s" % (pre[1][0], "face_list_changed" if [tuple(f) for f in bfaces] != list(T.faces) else "face_list_unchanged"))
+                for S in (_history_sets(T, "few") if smax == "few" else _deviation_sets(T)):
+                    ses.case(spec, geom, feat, S)
+        return
+    ses = Session(M, rep, unit, sort, shift, dup)
     for spec in task["meshes"]:
         name, pts, faces, T = ses.input(spec, geom)
         if T is None:
@@ -1815,6 +2059,22 @@ def finish(tier, rep: Report):
     need += ["dev:sort=False", "dev:sort=False:interior_cut:plain", "dev:sort=False:interior_cut:crease", "history:dev:sort=False",
              "dev:sort=False:some_vertex_ring_is_listed_in_another_order", "dev:face_order", "dev:sort=False:face_order",
              "dev:face_order:interior_cut:plain", "dev:face_order:interior_cut:crease"]
+    # ---- round 5: far from the origin / duplicate-attribute switch on second runs / history of the mesh object: each one was in force on runs that had
+    #      something to cut, on both code paths of the cutter; every query family and every edit kind was executed; the premises held
+    for e in (SHIFT_EXPONENTS if tier == "thorough" else SHIFT_EXPONENTS_QUICK):
+        need += ["dev:origin=2^%d" % e, "dev:origin=2^%d:interior_cut:plain" % e, "dev:origin=2^%d:interior_cut:crease" % e]
+    need += ["dev:dup", "dev:dup:create_attribute_hands_back_the_existing_attribute", "dev:dup:second_run:plain", "dev:dup:second_run:crease",
+             "dev:dup:first_run_left_an_attribute_on_the_mesh", "history:dev:dup", "history:dev:dup:feat=none", "history:dev:dup:feat=crease"]
+    need += ["history:dev:dup:" + ev for ev in EVENTS]
+    need += ["pre:queries:" + q for q in P.FILLERS] + ["pre:edit:" + k for k in P.EDIT_KINDS if (tier == "thorough" or k != "tri6")]
+    need += ["pre:interior_cut:plain", "pre:interior_cut:crease", "pre:base:triangles", "pre:base:has_larger_faces", "pre:triangulate:face_list_changed",
+             "pre:triangulate:face_list_unchanged", "pre:fan:face_list_changed", "pre:ears:face_list_changed", "pre:loop:face_list_changed"]
+    need += ["pre:interior_cut:after:" + k for k in P.EDIT_KINDS if (tier == "thorough" or k != "tri6")]
+    for k, v in rep.counters.items():
+        if k.startswith("pre:mesh_history_raised") or k == "pre:edit_result_depends_on_earlier_queries":
+            fails.append("mesh histories: premise failed in %d run(s): %s" % (v, k))
+    if rep.counters.get("pre:cuts_of_a_mesh_with_a_past", 0) < 1000:
+        fails.append("mesh histories: fewer than 1000 cuts of a mesh object with a past were judged")
     # ---- documented defaults / call forms: every entry of the pinned tables was compared with the signature, omitted alone and together
     #      with the others, passed positionally; the options were omitted / passed positionally where their value matters
     for callee, doc in list(DOC_SIGNATURES.items()) + list(DOC_SIGNATURES_RELIED_ON.items()):
